@@ -140,7 +140,11 @@ Definition reported (c : scfg) (k : bytes) (i : nat) (evs : list sevent) : N :=
   fold_right (fun e n => (reported1 c k i e + n)%N) 0%N evs.
 
 Lemma reported_app : forall c k i a b, reported c k i (a ++ b) = (reported c k i a + reported c k i b)%N.
-Proof. intros. induction a as [|e a IH]; cbn; auto. rewrite IH. lia. Qed.
+Proof.
+  intros. induction a as [|e a IH]; [reflexivity|].
+  change (reported c k i ((e :: a) ++ b)) with (reported1 c k i e + reported c k i (a ++ b))%N.
+  rewrite IH. change (reported c k i (e :: a)) with (reported1 c k i e + reported c k i a)%N. lia.
+Qed.
 
 (* ---- upload_slots ------------------------------------------------------------------------------------ *)
 Lemma upload_slot_slot : forall c start now i p t pv j,
@@ -277,8 +281,7 @@ Lemma nth_error_upd_nth : forall A n (f : A -> A) l i,
   if Nat.eqb n i then match nth_error l i with Some x => Some (f x) | None => None end else nth_error l i.
 Proof.
   induction n as [|n IH]; intros f [|x l] [|i]; cbn; auto.
-  - destruct (Nat.eqb n i); reflexivity.
-  - apply IH.
+  destruct (Nat.eqb n i); reflexivity.
 Qed.
 
 Lemma upd_nth_forallb : forall (l : list (option mset)) n k v,
@@ -290,27 +293,40 @@ Proof.
   - apply andb_true_iff in H as [H1 H2]. rewrite H1. cbn. apply IH. exact H2.
 Qed.
 
+Lemma do_reset_started : forall c now s js s', started s -> do_reset c now s = (js, s') -> started s'.
+Proof.
+  intros c now s js s' St H. unfold do_reset in H. destruct (ss_stopped s).
+  - inversion H; subst. exact St.
+  - destruct (upload_tries c now s) as [j0 s0] eqn:E. inversion H; subst.
+    destruct (upload_tries_started _ _ _ _ _ St E) as [[T L] _]. constructor; auto.
+Qed.
+
 Lemma step_started : forall c s e js s', started s -> s_step c s e = (js, s') -> started s'.
 Proof.
   intros c s e js s' St H. destruct e as [now | t1 | spy k v | t2 | ts]; cbn in H.
-  - unfold do_reset in H. destruct (upload_tries c now s) as [j0 s0] eqn:E. inversion H; subst.
-    destruct (upload_tries_started _ _ _ _ _ St E) as [[T L] _]. constructor; auto.
+  - eapply do_reset_started; eauto.
   - inversion H; subst. destruct St. constructor; auto.
   - inversion H; subst. destruct St as [T L]. unfold insert_sample. destruct k; [constructor; auto|].
     constructor; cbn.
     + apply upd_nth_forallb. exact T.
     + rewrite upd_nth_length. exact L.
   - destruct (ss_due s).
-    + unfold do_reset in H. destruct (upload_tries c t2 s) as [j0 s0] eqn:E. inversion H; subst.
-      destruct (upload_tries_started _ _ _ _ _ St E) as [[T L] _]. constructor; auto.
+    + destruct (do_reset c t2 s) as [j0 s0] eqn:E. inversion H; subst.
+      pose proof (do_reset_started _ _ _ _ _ St E) as [T L]. constructor; auto.
     + inversion H; subst. exact St.
-  - assert (St' : started (with_stopped s)) by (destruct St; constructor; auto).
-    apply (upload_tries_started _ _ _ _ _ St' H).
+  - destruct (ss_stopped s).
+    + inversion H; subst. exact St.
+    + assert (St' : started (with_stopped s)) by (destruct St; constructor; auto).
+      apply (upload_tries_started _ _ _ _ _ St' H).
 Qed.
 
 (* ---- conservation for a non-cumulative slot ------------------------------------------------------------ *)
 Lemma sum_data_app : forall k a b, sum_data k (a ++ b) = (sum_data k a + sum_data k b)%N.
-Proof. intros. induction a as [|j a IH]; cbn; auto. rewrite IH. lia. Qed.
+Proof.
+  intros. induction a as [|j a IH]; [reflexivity|].
+  change (sum_data k ((j :: a) ++ b)) with (ms_get k (uj_data j) + sum_data k (a ++ b))%N.
+  rewrite IH. change (sum_data k (j :: a)) with (ms_get k (uj_data j) + sum_data k a)%N. lia.
+Qed.
 
 Lemma jobs_of_slot_app : forall i a b, jobs_of_slot i (a ++ b) = jobs_of_slot i a ++ jobs_of_slot i b.
 Proof. intros. unfold jobs_of_slot. apply filter_app. Qed.
@@ -344,6 +360,19 @@ Proof.
     apply map_length.
 Qed.
 
+Lemma do_reset_conserve : forall c now s js s' i k,
+  started s -> (i < length (ss_tries s))%nat -> pt_cumulative (type_of c i) = false ->
+  do_reset c now s = (js, s') ->
+  (sum_data k (jobs_of_slot i js) + cur k i s' = cur k i s)%N /\
+  length (ss_tries s') = length (ss_tries s).
+Proof.
+  intros c now s js s' i k St Hi Hc H. unfold do_reset in H. destruct (ss_stopped s).
+  - inversion H; subst. cbn. split; auto.
+  - destruct (upload_tries c now s) as [j0 s0] eqn:E. inversion H; subst.
+    destruct (upload_tries_conserve c now s _ _ i k St Hi Hc E) as [A [B [_ L]]].
+    rewrite A. unfold cur in *. cbn. split; [|exact L]. rewrite B. lia.
+Qed.
+
 Lemma step_conserve : forall c s e js s' i k,
   started s -> (i < length (ss_tries s))%nat -> pt_cumulative (type_of c i) = false ->
   s_step c s e = (js, s') ->
@@ -352,31 +381,531 @@ Lemma step_conserve : forall c s e js s' i k,
 Proof.
   intros c s e js s' i k St Hi Hc H.
   destruct e as [now | t1 | spy k' v | t2 | ts]; cbn in H.
-  - unfold do_reset in H. destruct (upload_tries c now s) as [j0 s0] eqn:E. inversion H; subst.
-    destruct (upload_tries_conserve c now s j0 s0 i k St Hi Hc E) as [A [B [_ L]]].
-    cbn [reported1]. unfold cur in *. cbn. rewrite A. unfold cur. split; [|exact L].
-    unfold cur in B. rewrite B. lia.
+  - destruct (do_reset_conserve c now s js s' i k St Hi Hc H) as [A L]. cbn [reported1]. split; [lia | exact L].
   - inversion H; subst. cbn. unfold cur. cbn. split; auto. lia.
   - inversion H; subst. cbn [jobs_of_slot filter sum_data fold_right reported1].
     unfold insert_sample. destruct k' as [|b k']; [split; auto; lia|].
     split; [|cbn; apply upd_nth_length].
-    unfold cur. cbn [ss_tries]. rewrite nth_error_upd_nth.
-    destruct (Nat.eqb (slot_of c spy) i) eqn:Es.
-    + destruct (nth_error (ss_tries s) i) as [[m|]|]; cbn [andb].
-      * rewrite ms_get_add. destruct (beqb k (b :: k')); lia.
-      * destruct (beqb k (b :: k')); [|lia].
-        (* a nil trie: excluded by [started] *)
-        exfalso. destruct St as [T _]. destruct (cur_some k i s (Build_started _ T (eq_refl _)) Hi) as [m [Hm _]] .
-        all: fail.
-      * destruct (beqb k (b :: k')); [|lia]. exfalso.
-        destruct (cur_some k i s St Hi) as [m [Hm _]]. all: fail.
-    + cbn [andb]. lia.
+    destruct (cur_some k i s St Hi) as [m [Hm Hcur]].
+    unfold cur. cbn [ss_tries]. rewrite nth_error_upd_nth, Hm.
+    destruct (Nat.eqb (slot_of c spy) i) eqn:Es; cbn [andb].
+    + rewrite ms_get_add. destruct (beqb k (b :: k')); lia.
+    + lia.
   - destruct (ss_due s).
-    + unfold do_reset in H. destruct (upload_tries c t2 s) as [j0 s0] eqn:E. inversion H; subst.
-      destruct (upload_tries_conserve c t2 s j0 s0 i k St Hi Hc E) as [A [B [_ L]]].
-      cbn [reported1]. rewrite A. unfold cur in *. cbn. split; [|exact L]. rewrite B. lia.
+    + destruct (do_reset c t2 s) as [j0 s0] eqn:E. inversion H; subst.
+      destruct (do_reset_conserve c t2 s _ _ i k St Hi Hc E) as [A L]. cbn [reported1].
+      unfold cur in *. cbn. split; [lia | exact L].
     + inversion H; subst. cbn. split; auto. lia.
-  - assert (St' : started (with_stopped s)) by (destruct St; constructor; auto).
-    destruct (upload_tries_conserve c ts (with_stopped s) js s' i k St' Hi Hc H) as [A [B [_ L]]].
-    cbn [reported1]. rewrite A, B. unfold cur. cbn. split; [lia | exact L].
+  - destruct (ss_stopped s).
+    + inversion H; subst. cbn. split; auto. lia.
+    + assert (St' : started (with_stopped s)) by (destruct St; constructor; auto).
+      destruct (upload_tries_conserve c ts (with_stopped s) js s' i k St' Hi Hc H) as [A [B [_ L]]].
+      cbn [reported1]. rewrite A, B. unfold cur. cbn. split; [lia | exact L].
 Qed.
+
+(* ---- runs ------------------------------------------------------------------------------------------------ *)
+Lemma run_conserve : forall c evs s js s' i k,
+  started s -> (i < length (ss_tries s))%nat -> pt_cumulative (type_of c i) = false ->
+  s_run c evs s = (js, s') ->
+  (sum_data k (jobs_of_slot i js) + cur k i s' = cur k i s + reported c k i evs)%N /\
+  started s' /\ length (ss_tries s') = length (ss_tries s).
+Proof.
+  intros c evs. induction evs as [|e evs IH]; intros s js s' i k St Hi Hc H; cbn [s_run] in H.
+  - inversion H; subst. cbn. split; [lia | split; auto].
+  - destruct (s_step c s e) as [j1 s1] eqn:E1.
+    destruct (s_run c evs s1) as [j2 s2] eqn:E2.
+    inversion H; subst; clear H.
+    destruct (step_conserve c s e j1 s1 i k St Hi Hc E1) as [A L1].
+    pose proof (step_started c s e j1 s1 St E1) as St1.
+    assert (Hi1 : (i < length (ss_tries s1))%nat) by lia.
+    destruct (IH s1 j2 s' i k St1 Hi1 Hc E2) as [B [St2 L2]].
+    rewrite jobs_of_slot_app, sum_data_app.
+    change (reported c k i (e :: evs)) with (reported1 c k i e + reported c k i evs)%N.
+    split; [lia | split; [auto | lia]].
+Qed.
+
+(* Start(): the first reset uploads nothing and creates the tries *)
+Lemma upload_slots_none : forall c start now n i pvs,
+  length pvs = n ->
+  upload_slots c start now i (repeat None n) pvs = ([], pvs).
+Proof.
+  intros c start now n. induction n as [|n IH]; intros i pvs L; cbn.
+  - destruct pvs; [reflexivity | discriminate].
+  - destruct pvs as [|pv pvs]; [discriminate|]. cbn. rewrite IH by (cbn in L; lia). reflexivity.
+Qed.
+
+Lemma start_step : forall c t0,
+  exists s1, s_step c (s_init c) (SStart t0) = ([], s1) /\ started s1 /\
+    length (ss_tries s1) = nslots c /\ ss_stopped s1 = false /\ ss_start s1 = t0 /\
+    ss_prev s1 = repeat None (nslots c) /\
+    forall k i, cur k i s1 = 0%N.
+Proof.
+  intros c t0. cbn. unfold do_reset, upload_tries. cbn.
+  rewrite upload_slots_none by apply repeat_length. cbn.
+  eexists. split; [reflexivity|]. repeat split; cbn.
+  - apply map_some_forall.
+  - rewrite map_length, !repeat_length. reflexivity.
+  - rewrite map_length, repeat_length. reflexivity.
+  - intros k i. unfold cur. cbn. rewrite nth_error_map_const.
+    destruct (nth_error (repeat None (nslots c)) i); reflexivity.
+Qed.
+
+(* conservation: at every moment, for every stack, what has been uploaded for a (non-cumulative) profile type
+   plus what sits in the current trie is exactly what the spies reported *)
+Theorem session_conservation : forall c t0 evs i k,
+  (i < nslots c)%nat -> pt_cumulative (type_of c i) = false ->
+  forall js s', s_run c (SStart t0 :: evs) (s_init c) = (js, s') ->
+  (sum_data k (jobs_of_slot i js) + cur k i s' = reported c k i evs)%N.
+Proof.
+  intros c t0 evs i k Hi Hc js s' H.
+  destruct (start_step c t0) as [s1 [E1 [St1 [L1 [_ [_ [_ C1]]]]]]].
+  cbn [s_run] in H. rewrite E1 in H.
+  destruct (s_run c evs s1) as [j2 s2] eqn:E2. inversion H; subst; clear H. cbn [app].
+  destruct (run_conserve c evs s1 _ _ i k St1 ltac:(lia) Hc E2) as [A _].
+  rewrite C1 in A. lia.
+Qed.
+
+(* once stopped, nothing is uploaded any more *)
+Lemma stopped_no_jobs : forall c evs s js s',
+  ss_stopped s = true -> s_run c evs s = (js, s') -> js = [] /\ ss_stopped s' = true.
+Proof.
+  intros c evs. induction evs as [|e evs IH]; intros s js s' Hs H; cbn [s_run] in H.
+  - inversion H; subst. auto.
+  - destruct (s_step c s e) as [j1 s1] eqn:E1.
+    destruct (s_run c evs s1) as [j2 s2] eqn:E2. inversion H; subst; clear H.
+    assert (j1 = [] /\ ss_stopped s1 = true).
+    { destruct e as [now | t1 | spy k v | t2 | ts]; cbn in E1; unfold do_reset in E1; rewrite ?Hs in E1.
+      - inversion E1; subst. auto.
+      - inversion E1; subst. auto.
+      - inversion E1; subst. unfold insert_sample. destruct k; auto.
+      - destruct (ss_due s); inversion E1; subst; auto.
+      - inversion E1; subst. auto. }
+    destruct H as [-> Hs1]. destruct (IH s1 _ _ Hs1 E2) as [-> Hs2]. auto.
+Qed.
+
+Definition no_stop (evs : list sevent) : bool :=
+  forallb (fun e => match e with SStop _ => false | _ => true end) evs.
+
+Lemma no_stop_not_stopped : forall c evs s js s',
+  no_stop evs = true -> ss_stopped s = false -> s_run c evs s = (js, s') -> ss_stopped s' = false.
+Proof.
+  intros c evs. induction evs as [|e evs IH]; intros s js s' Hn Hs H; cbn [s_run] in H.
+  - inversion H; subst. auto.
+  - cbn in Hn. apply andb_true_iff in Hn as [He Hn].
+    destruct (s_step c s e) as [j1 s1] eqn:E1.
+    destruct (s_run c evs s1) as [j2 s2] eqn:E2. inversion H; subst; clear H.
+    assert (Hs1 : ss_stopped s1 = false).
+    { destruct e as [now | t1 | spy k v | t2 | ts]; cbn in E1; unfold do_reset in E1; rewrite ?Hs in E1; try discriminate.
+      + unfold upload_tries in E1. destruct (upload_slots _ _ _ _ _ _). inversion E1; subst; cbn; auto.
+      + inversion E1; subst; cbn; auto.
+      + inversion E1; subst. unfold insert_sample. destruct k; cbn; auto.
+      + destruct (ss_due s).
+        * unfold upload_tries in E1. destruct (upload_slots _ _ _ _ _ _). inversion E1; subst; cbn; auto.
+        * inversion E1; subst; cbn; auto. }
+    eapply IH; eauto.
+Qed.
+
+Lemma s_run_app : forall c a b s,
+  s_run c (a ++ b) s =
+  let '(j1, s1) := s_run c a s in let '(j2, s2) := s_run c b s1 in ((j1 ++ j2)%list, s2).
+Proof.
+  intros c a. induction a as [|e a IH]; intros b s; cbn [app s_run].
+  - destruct (s_run c b s). reflexivity.
+  - destruct (s_step c s e) as [j0 s0]. rewrite IH.
+    destruct (s_run c a s0) as [j1 s1]. destruct (s_run c b s1) as [j2 s2]. rewrite app_assoc. reflexivity.
+Qed.
+
+(* exactly once: every sample reported before Stop is in the uploads exactly once (as a multiset: for every
+   stack, the uploaded count equals the reported count), whatever happens after Stop; samples reported after
+   Stop are uploaded at most once — in fact never (their tries are never uploaded) *)
+Theorem exactly_once_before_stop : forall c t0 pre ts post i k,
+  (i < nslots c)%nat -> pt_cumulative (type_of c i) = false -> no_stop pre = true ->
+  forall js s', s_run c (SStart t0 :: pre ++ SStop ts :: post) (s_init c) = (js, s') ->
+  sum_data k (jobs_of_slot i js) = reported c k i pre.
+Proof.
+  intros c t0 pre ts post i k Hi Hc Hn js s' H.
+  destruct (start_step c t0) as [s1 [E1 [St1 [L1 [Hs1 [_ [_ C1]]]]]]].
+  cbn [s_run] in H. rewrite E1 in H. cbn [app] in H.
+  rewrite s_run_app in H.
+  destruct (s_run c pre s1) as [j1 s2] eqn:E2.
+  cbn [s_run] in H.
+  destruct (s_step c s2 (SStop ts)) as [j3 s3] eqn:E3.
+  destruct (s_run c post s3) as [j4 s4] eqn:E4.
+  inversion H; subst; clear H.
+  destruct (run_conserve c pre s1 _ _ i k St1 ltac:(lia) Hc E2) as [A [St2 L2]].
+  pose proof (no_stop_not_stopped c pre s1 _ _ Hn Hs1 E2) as Hs2.
+  destruct (step_conserve c s2 (SStop ts) _ _ i k St2 ltac:(lia) Hc E3) as [B _].
+  cbn in E3. rewrite Hs2 in E3.
+  assert (St2' : started (with_stopped s2)) by (destruct St2; constructor; auto).
+  destruct (upload_tries_conserve c ts (with_stopped s2) _ _ i k St2' ltac:(cbn; lia) Hc E3) as [_ [Z3 _]].
+  assert (Hs3 : ss_stopped s3 = true).
+  { unfold upload_tries in E3. destruct (upload_slots _ _ _ _ _ _). inversion E3; subst. reflexivity. }
+  destruct (stopped_no_jobs c post s3 _ _ Hs3 E4) as [-> _].
+  rewrite !jobs_of_slot_app, !sum_data_app. cbn [jobs_of_slot filter sum_data fold_right].
+  rewrite C1 in A. cbn [reported1] in B. lia.
+Qed.
+
+(* never more than reported, at any time, for any event sequence: nothing is uploaded twice *)
+Theorem never_more_than_reported : forall c t0 evs i k,
+  (i < nslots c)%nat -> pt_cumulative (type_of c i) = false ->
+  forall js s', s_run c (SStart t0 :: evs) (s_init c) = (js, s') ->
+  (sum_data k (jobs_of_slot i js) <= reported c k i evs)%N.
+Proof.
+  intros c t0 evs i k Hi Hc js s' H.
+  pose proof (session_conservation c t0 evs i k Hi Hc js s' H). lia.
+Qed.
+
+(* ---- names, metadata, window ends --------------------------------------------------------------------------- *)
+Definition job_ok (c : scfg) (j : ujob) : Prop :=
+  uj_name j = job_name c (type_of c (uj_slot j)) /\ uj_spy j = sc_spy c /\ uj_rate j = sc_rate c /\
+  uj_units j = pt_units (type_of c (uj_slot j)) /\ uj_agg j = pt_agg (type_of c (uj_slot j)) /\
+  (uj_end j) mod (sc_interval c) = 0.
+
+Lemma upload_slot_ok : forall c start now i t pv,
+  0 < sc_interval c -> Forall (job_ok c) (fst (upload_slot c start now i (type_of c i) t pv)).
+Proof.
+  intros c start now i t pv HI. unfold upload_slot.
+  destruct t as [m|]; cbn; [|constructor].
+  destruct (pt_cumulative (type_of c i)); [destruct pv as [q|]|]; cbn; constructor; try constructor;
+    unfold job_ok; cbn; repeat split; auto; apply trunc_multiple; auto.
+Qed.
+
+Lemma upload_slots_ok : forall c start now ts pvs i js pvs',
+  0 < sc_interval c -> upload_slots c start now i ts pvs = (js, pvs') -> Forall (job_ok c) js.
+Proof.
+  intros c start now. induction ts as [|t ts IH]; intros pvs i js pvs' HI H; cbn in H.
+  - inversion H; subst. constructor.
+  - destruct pvs as [|pv pvs]; [inversion H; subst; constructor|].
+    destruct (upload_slot c start now i (type_of c i) t pv) as [j1 pv1] eqn:E1.
+    destruct (upload_slots c start now (S i) ts pvs) as [j2 pvs2] eqn:E2.
+    inversion H; subst. apply Forall_app. split.
+    + pose proof (upload_slot_ok c start now i t pv HI) as A. rewrite E1 in A. exact A.
+    + eapply IH; eauto.
+Qed.
+
+Lemma step_ok : forall c s e js s', 0 < sc_interval c -> s_step c s e = (js, s') -> Forall (job_ok c) js.
+Proof.
+  intros c s e js s' HI H.
+  assert (U : forall now s0 j0 s1, upload_tries c now s0 = (j0, s1) -> Forall (job_ok c) j0).
+  { intros now s0 j0 s1 E. unfold upload_tries in E.
+    destruct (upload_slots c (ss_start s0) now 0 (ss_tries s0) (ss_prev s0)) as [jj pp] eqn:E0.
+    inversion E; subst. eapply upload_slots_ok; eauto. }
+  assert (R : forall now s0 j0 s1, do_reset c now s0 = (j0, s1) -> Forall (job_ok c) j0).
+  { intros now s0 j0 s1 E. unfold do_reset in E. destruct (ss_stopped s0).
+    - inversion E; subst. constructor.
+    - destruct (upload_tries c now s0) as [jj ss] eqn:E0. inversion E; subst. eapply U; eauto. }
+  destruct e as [now | t1 | spy k v | t2 | ts]; cbn in H.
+  - eapply R; eauto.
+  - inversion H; subst. constructor.
+  - inversion H; subst. constructor.
+  - destruct (ss_due s).
+    + destruct (do_reset c t2 s) as [jj ss] eqn:E0. inversion H; subst. eapply R; eauto.
+    + inversion H; subst. constructor.
+  - destruct (ss_stopped s).
+    + inversion H; subst. constructor.
+    + eapply U; eauto.
+Qed.
+
+(* every job of every run: named <app>.<type>, carries the session's spy name, sample rate, and the type's
+   units and aggregation; its window ends on a multiple of the upload interval *)
+Theorem jobs_named_and_aligned : forall c evs s js s',
+  0 < sc_interval c -> s_run c evs s = (js, s') -> Forall (job_ok c) js.
+Proof.
+  intros c evs. induction evs as [|e evs IH]; intros s js s' HI H; cbn [s_run] in H.
+  - inversion H; subst. constructor.
+  - destruct (s_step c s e) as [j1 s1] eqn:E1.
+    destruct (s_run c evs s1) as [j2 s2] eqn:E2. inversion H; subst; clear H.
+    apply Forall_app. split; [eapply step_ok; eauto | eapply IH; eauto].
+Qed.
+
+(* ---- window order ---------------------------------------------------------------------------------------------- *)
+Fixpoint ordered_from (lb : option Z) (js : list ujob) : Prop :=
+  match js with
+  | [] => True
+  | j :: r => match lb with Some l => l <= uj_start j | None => True end /\ ordered_from (Some (uj_end j)) r
+  end.
+
+Definition last_end (lb : option Z) (js : list ujob) : option Z :=
+  match rev js with [] => lb | j :: _ => Some (uj_end j) end.
+
+Lemma ordered_from_app : forall a lb b,
+  ordered_from lb a -> ordered_from (last_end lb a) b -> ordered_from lb (a ++ b).
+Proof.
+  induction a as [|j a IH]; intros lb b Ha Hb; cbn in *.
+  - exact Hb.
+  - destruct Ha as [H1 H2]. split; auto. apply IH; auto.
+    unfold last_end in *. cbn in Hb.
+    destruct (rev a) as [|x r] eqn:E; cbn in Hb; auto.
+Qed.
+
+(* will the next uploadTries produce a job for slot i? *)
+Definition will_produce (c : scfg) (s : sstate) (i : nat) : Prop :=
+  pt_cumulative (type_of c i) = true -> exists q, nth_error (ss_prev s) i = Some (Some q).
+
+Definition order_inv (c : scfg) (s : sstate) (i : nat) (lb : option Z) : Prop :=
+  ss_stopped s = true \/
+  match lb with None => True | Some l => l <= ss_start s /\ will_produce c s i end.
+
+(* what one uploadTries does for slot i, as far as windows are concerned *)
+Lemma upload_tries_window : forall c now s js s' i,
+  started s -> (i < length (ss_tries s))%nat -> 0 < sc_interval c ->
+  upload_tries c now s = (js, s') ->
+  (jobs_of_slot i js = [] \/
+   exists j, jobs_of_slot i js = [j] /\ uj_start j = ss_start s /\ uj_end j = trunc (sc_interval c) now) /\
+  (will_produce c s i -> jobs_of_slot i js <> []) /\
+  will_produce c s' i.
+Proof.
+  intros c now s js s' i St Hi HI H.
+  destruct (cur_some [] i s St Hi) as [m [Hn _]].
+  destruct (upload_tries_slot c now s js s' i m St H Hn) as [pv [Hp [Hj [Hp' _]]]].
+  unfold upload_slot in Hj, Hp'.
+  destruct (pt_cumulative (type_of c i)) eqn:Ec.
+  - destruct pv as [q|]; cbn in Hj, Hp'.
+    + repeat split.
+      * right. eexists. split; [exact Hj|]. cbn. auto.
+      * intros _. rewrite Hj. discriminate.
+      * intros _. eexists. exact Hp'.
+    + repeat split.
+      * left. exact Hj.
+      * intros W. destruct (W Ec) as [q Hq]. congruence.
+      * intros _. eexists. exact Hp'.
+  - cbn in Hj, Hp'. repeat split.
+    + right. eexists. split; [exact Hj|]. cbn. auto.
+    + intros _. rewrite Hj. discriminate.
+    + intro Hcum. congruence.
+Qed.
+
+Lemma step_order : forall c s e js s' i lb,
+  started s -> (i < length (ss_tries s))%nat -> 0 < sc_interval c ->
+  order_inv c s i lb -> s_step c s e = (js, s') ->
+  ordered_from lb (jobs_of_slot i js) /\ order_inv c s' i (last_end lb (jobs_of_slot i js)).
+Proof.
+  intros c s e js s' i lb St Hi HI Inv H.
+  (* events that upload nothing and keep start / prev / stopped *)
+  assert (Quiet : forall s1, js = [] -> ss_stopped s1 = ss_stopped s -> ss_start s1 = ss_start s ->
+                             ss_prev s1 = ss_prev s -> s' = s1 ->
+            ordered_from lb (jobs_of_slot i js) /\ order_inv c s' i (last_end lb (jobs_of_slot i js))).
+  { intros s1 -> E1 E2 E3 ->. cbn. split; auto. unfold last_end. cbn.
+    destruct Inv as [Hs | Hl]; [left; congruence|]. right.
+    destruct lb as [l|]; auto. destruct Hl as [A B]. split; [lia|].
+    unfold will_produce in *. rewrite E3. exact B. }
+  (* a reset from a live session *)
+  assert (Reset : forall now jj ss, ss_stopped s = false -> upload_tries c now s = (jj, ss) ->
+            ordered_from lb (jobs_of_slot i jj) /\
+            order_inv c (with_start ss now) i (last_end lb (jobs_of_slot i jj))).
+  { intros now jj ss Hs E.
+    destruct (upload_tries_window c now s jj ss i St Hi HI E) as [Shape [Prod W']].
+    destruct Inv as [Hst | Hl]; [congruence|].
+    destruct Shape as [Hnil | [j [Hj [Hstart Hend]]]].
+    - rewrite Hnil. cbn. split; auto. right. unfold last_end. cbn.
+      destruct lb as [l|]; auto. destruct Hl as [_ B]. exfalso. apply (Prod B). exact Hnil.
+    - rewrite Hj. cbn. split.
+      + split; auto. destruct lb as [l|]; auto. destruct Hl as [A _]. lia.
+      + right. unfold last_end. cbn. rewrite Hend. split.
+        * apply trunc_le. exact HI.
+        * unfold will_produce in *. cbn. exact W'. }
+  destruct e as [now | t1 | spy k v | t2 | ts]; cbn in H.
+  - unfold do_reset in H. destruct (ss_stopped s) eqn:Hs.
+    + inversion H; subst. apply (Quiet s'); auto.
+    + destruct (upload_tries c now s) as [jj ss] eqn:E. inversion H; subst. apply Reset; auto.
+  - inversion H; subst. apply (Quiet (with_due s (is_due c s t1))); auto.
+  - inversion H; subst. apply (Quiet (insert_sample c spy k v s)); auto; unfold insert_sample; destruct k; auto.
+  - destruct (ss_due s).
+    + unfold do_reset in H. destruct (ss_stopped s) eqn:Hs.
+      * inversion H; subst. apply (Quiet (with_due s false)); auto.
+      * destruct (upload_tries c t2 s) as [jj ss] eqn:E. inversion H; subst.
+        destruct (Reset t2 _ _ eq_refl E) as [A B]. split; auto.
+    + inversion H; subst. apply (Quiet s'); auto.
+  - destruct (ss_stopped s) eqn:Hs.
+    + inversion H; subst. apply (Quiet s'); auto.
+    + assert (St' : started (with_stopped s)) by (destruct St; constructor; auto).
+      destruct (upload_tries_window c ts (with_stopped s) js s' i St' Hi HI H) as [Shape [Prod _]].
+      assert (Hs' : ss_stopped s' = true).
+      { unfold upload_tries in H. destruct (upload_slots _ _ _ _ _ _). inversion H; subst. reflexivity. }
+      split; [|left; exact Hs'].
+      destruct Inv as [Hst | Hl]; [congruence|].
+      destruct Shape as [Hnil | [j [Hj [Hstart Hend]]]].
+      * rewrite Hnil. cbn. auto.
+      * rewrite Hj. cbn. split; auto. destruct lb as [l|]; auto. destruct Hl as [A _]. cbn in Hstart. lia.
+Qed.
+
+Lemma run_order : forall c evs s js s' i lb,
+  started s -> (i < length (ss_tries s))%nat -> 0 < sc_interval c ->
+  order_inv c s i lb -> s_run c evs s = (js, s') ->
+  ordered_from lb (jobs_of_slot i js).
+Proof.
+  intros c evs. induction evs as [|e evs IH]; intros s js s' i lb St Hi HI Inv H; cbn [s_run] in H.
+  - inversion H; subst. cbn. auto.
+  - destruct (s_step c s e) as [j1 s1] eqn:E1.
+    destruct (s_run c evs s1) as [j2 s2] eqn:E2. inversion H; subst; clear H.
+    destruct (step_order c s e j1 s1 i lb St Hi HI Inv E1) as [A B].
+    pose proof (step_started c s e j1 s1 St E1) as St1.
+    assert (L1 : length (ss_tries s1) = length (ss_tries s)).
+    { destruct e as [now | t1 | spy k v | t2 | ts]; cbn in E1; unfold do_reset, upload_tries in E1.
+      - destruct (ss_stopped s); [inversion E1; subst; auto|].
+        destruct (upload_slots _ _ _ _ _ _). inversion E1; subst. cbn. apply map_length.
+      - inversion E1; subst. reflexivity.
+      - inversion E1; subst. unfold insert_sample. destruct k; cbn; auto. apply upd_nth_length.
+      - destruct (ss_due s); [|inversion E1; subst; auto].
+        destruct (ss_stopped s); [inversion E1; subst; auto|].
+        destruct (upload_slots _ _ _ _ _ _). inversion E1; subst. cbn. apply map_length.
+      - destruct (ss_stopped s); [inversion E1; subst; auto|].
+        cbn in E1. destruct (upload_slots _ _ _ _ _ _). inversion E1; subst. cbn. apply map_length. }
+    rewrite jobs_of_slot_app. apply ordered_from_app; auto.
+    eapply IH; eauto. lia.
+Qed.
+
+(* windows of one profile type never overlap and are in order: each starts no earlier than the previous one
+   ended — for ALL event sequences, including ticks that overlap or follow Stop *)
+Theorem windows_ordered : forall c t0 evs i,
+  (i < nslots c)%nat -> 0 < sc_interval c ->
+  forall js s', s_run c (SStart t0 :: evs) (s_init c) = (js, s') ->
+  ordered_from None (jobs_of_slot i js).
+Proof.
+  intros c t0 evs i Hi HI js s' H.
+  destruct (start_step c t0) as [s1 [E1 [St1 [L1 _]]]].
+  cbn [s_run] in H. rewrite E1 in H.
+  destruct (s_run c evs s1) as [j2 s2] eqn:E2. inversion H; subst; clear H. cbn [app].
+  eapply run_order; eauto; try lia. right. exact I.
+Qed.
+
+(* ---- window length ------------------------------------------------------------------------------------------------ *)
+(* stated hypothesis ("tick gaps are shorter than the interval"): every clock reading at which a window is cut
+   falls before the end of the interval that follows the one in which the window started *)
+Fixpoint timely (c : scfg) (evs : list sevent) (s : sstate) : Prop :=
+  match evs with
+  | [] => True
+  | e :: evs' =>
+      (match e with
+       | SStart now | SReset now | SStop now =>
+           fst (s_step c s e) = [] \/ now < trunc (sc_interval c) (ss_start s) + 2 * sc_interval c
+       | _ => True
+       end) /\ timely c evs' (snd (s_step c s e))
+  end.
+
+Lemma step_job_window : forall c s e js s' j,
+  s_step c s e = (js, s') -> In j js ->
+  uj_start j = ss_start s /\
+  exists now, uj_end j = trunc (sc_interval c) now /\ (e = SStart now \/ e = SReset now \/ e = SStop now).
+Proof.
+  intros c s e js s' j H Hj.
+  assert (U : forall now s0 j0 s1, upload_tries c now s0 = (j0, s1) -> In j j0 ->
+              uj_start j = ss_start s0 /\ uj_end j = trunc (sc_interval c) now).
+  { intros now s0 j0 s1 E Hin. unfold upload_tries in E.
+    destruct (upload_slots c (ss_start s0) now 0 (ss_tries s0) (ss_prev s0)) as [jj pp] eqn:E0.
+    assert (Ej : j0 = jj) by congruence. subst j0. clear E.
+    revert Hin E0. generalize (ss_prev s0) 0%nat jj pp. generalize (ss_tries s0).
+    induction l as [|t ts IH]; intros pvs i0 jj0 pp0 Hin E0; cbn in E0.
+    - inversion E0; subst. contradiction.
+    - destruct pvs as [|pv pvs]; [inversion E0; subst; contradiction|].
+      destruct (upload_slot c (ss_start s0) now i0 (type_of c i0) t pv) as [j1 pv1] eqn:E1.
+      destruct (upload_slots c (ss_start s0) now (S i0) ts pvs) as [j2 pvs2] eqn:E2.
+      inversion E0; subst. apply in_app_or in Hin as [Hin | Hin].
+      + unfold upload_slot in E1. destruct t as [m|]; [|inversion E1; subst; contradiction].
+        destruct (pt_cumulative (type_of c i0)); [destruct pv as [q|]|]; inversion E1; subst; cbn in Hin;
+          try contradiction; destruct Hin as [<- | []]; cbn; auto.
+      + eapply IH; eauto. }
+  destruct e as [now | t1 | spy k v | t2 | ts]; cbn in H.
+  - unfold do_reset in H. destruct (ss_stopped s); [inversion H; subst; contradiction|].
+    destruct (upload_tries c now s) as [jj ss] eqn:E. inversion H; subst.
+    destruct (U _ _ _ _ E Hj). split; auto. exists now. auto.
+  - inversion H; subst. contradiction.
+  - inversion H; subst. contradiction.
+  - destruct (ss_due s); [|inversion H; subst; contradiction].
+    unfold do_reset in H. destruct (ss_stopped s); [inversion H; subst; contradiction|].
+    destruct (upload_tries c t2 s) as [jj ss] eqn:E. inversion H; subst.
+    destruct (U _ _ _ _ E Hj). split; auto. exists t2. auto.
+  - destruct (ss_stopped s); [inversion H; subst; contradiction|].
+    destruct (U _ _ _ _ H Hj) as [A B]. split; auto. exists ts. auto.
+Qed.
+
+Theorem windows_at_most_one_interval : forall c evs s js s',
+  0 < sc_interval c -> timely c evs s -> s_run c evs s = (js, s') ->
+  Forall (fun j => uj_end j - uj_start j <= sc_interval c) js.
+Proof.
+  intros c evs. induction evs as [|e evs IH]; intros s js s' HI T H; cbn [s_run] in H.
+  - inversion H; subst. constructor.
+  - destruct (s_step c s e) as [j1 s1] eqn:E1.
+    destruct (s_run c evs s1) as [j2 s2] eqn:E2. inversion H; subst; clear H.
+    cbn [timely] in T. rewrite E1 in T. cbn [fst snd] in T. destruct T as [T1 T2].
+    apply Forall_app. split; [|eapply IH; eauto].
+    apply Forall_forall. intros j Hj.
+    destruct (step_job_window c s e j1 s1 j E1 Hj) as [Hs [now [He Hev]]].
+    rewrite Hs, He. apply trunc_window; auto.
+    destruct Hev as [-> | [-> | ->]]; (destruct T1 as [T1 | T1]; [rewrite T1 in Hj; contradiction | exact T1]).
+Qed.
+
+(* ---- cumulative profile types: every uploaded job is the clipped difference of two consecutive snapshots ------- *)
+Theorem cumulative_jobs_are_clipped_diffs : forall c evs s js s' i,
+  started s -> (i < length (ss_tries s))%nat -> pt_cumulative (type_of c i) = true ->
+  s_run c evs s = (js, s') ->
+  Forall (fun j => exists m q, uj_data j = ms_diff m q /\
+                   forall k, ms_get k (uj_data j) = (ms_get k m - ms_get k q)%N) (jobs_of_slot i js).
+Proof.
+  intros c evs. induction evs as [|e evs IH]; intros s js s' i St Hi Hc H; cbn [s_run] in H.
+  - inversion H; subst. constructor.
+  - destruct (s_step c s e) as [j1 s1] eqn:E1.
+    destruct (s_run c evs s1) as [j2 s2] eqn:E2. inversion H; subst; clear H.
+    pose proof (step_started c s e j1 s1 St E1) as St1.
+    assert (U : forall now s0 j0 s3, started s0 -> (i < length (ss_tries s0))%nat -> upload_tries c now s0 = (j0, s3) ->
+              Forall (fun j => exists m q, uj_data j = ms_diff m q /\
+                   forall k, ms_get k (uj_data j) = (ms_get k m - ms_get k q)%N) (jobs_of_slot i j0) /\
+              length (ss_tries s3) = length (ss_tries s0)).
+    { intros now s0 j0 s3 St0 Hi0 E.
+      destruct (cur_some [] i s0 St0 Hi0) as [m [Hn _]].
+      destruct (upload_tries_slot c now s0 j0 s3 i m St0 E Hn) as [pv [Hp [Hj _]]].
+      split.
+      - rewrite Hj. unfold upload_slot. rewrite Hc. destruct pv as [q|]; cbn; constructor; [|constructor].
+        exists m, q. cbn. split; auto. intro k. apply ms_get_diff.
+      - unfold upload_tries in E. destruct (upload_slots _ _ _ _ _ _). inversion E; subst. cbn. apply map_length. }
+    assert (A : Forall (fun j => exists m q, uj_data j = ms_diff m q /\
+                   forall k, ms_get k (uj_data j) = (ms_get k m - ms_get k q)%N) (jobs_of_slot i j1) /\
+                length (ss_tries s1) = length (ss_tries s)).
+    { destruct e as [now | t1 | spy k v | t2 | ts]; cbn in E1; unfold do_reset in E1.
+      - destruct (ss_stopped s); [inversion E1; subst; split; [constructor | auto]|].
+        destruct (upload_tries c now s) as [jj ss] eqn:E. inversion E1; subst.
+        destruct (U _ _ _ _ St Hi E). split; auto.
+      - inversion E1; subst. split; [constructor | auto].
+      - inversion E1; subst. split; [constructor|]. unfold insert_sample. destruct k; cbn; auto. apply upd_nth_length.
+      - destruct (ss_due s); [|inversion E1; subst; split; [constructor | auto]].
+        destruct (ss_stopped s); [inversion E1; subst; split; [constructor | auto]|].
+        destruct (upload_tries c t2 s) as [jj ss] eqn:E. inversion E1; subst.
+        destruct (U _ _ _ _ St Hi E). split; auto.
+      - destruct (ss_stopped s); [inversion E1; subst; split; [constructor | auto]|].
+        assert (St' : started (with_stopped s)) by (destruct St; constructor; auto).
+        destruct (U _ _ _ _ St' Hi E1). split; auto. }
+    destruct A as [A L1].
+    rewrite jobs_of_slot_app. apply Forall_app. split; auto.
+    eapply IH; eauto. lia.
+Qed.
+
+(* the first upload of a cumulative type is skipped *)
+Lemma cumulative_first_upload_skipped : forall c start now i m,
+  pt_cumulative (type_of c i) = true ->
+  upload_slot c start now i (type_of c i) (Some m) None = ([], Some m).
+Proof. intros. unfold upload_slot. rewrite H. reflexivity. Qed.
+
+(* ---- examples -------------------------------------------------------------------------------------------------------- *)
+Definition ex_scfg : scfg :=
+  {| sc_app := [97%N]; sc_spy := [120%N]; sc_gospy := false; sc_rate := 100%N; sc_interval := 10; sc_types := [PCpu] |}.
+
+(* Start at 3, two samples, a due tick at 12/13 with a third sample, Stop at 27 overlapping a due tick whose
+   callback (stack 100) was blocked on the mutex: two jobs [3,10] and [13,20]; stack 100 is never uploaded *)
+Definition ex_sevs : list sevent :=
+  [SSample 0 [97%N] 2%N; SSample 0 [98%N] 1%N; SDecide 12; SSample 0 [97%N] 1%N; SReset 13;
+   SSample 0 [99%N] 5%N; SDecide 26; SStop 27; SSample 0 [100%N] 7%N; SReset 28].
+
+Example ex_session_nonvacuous :
+  let '(js, s') := s_run ex_scfg (SStart 3 :: ex_sevs) (s_init ex_scfg) in
+  map (fun j => (uj_start j, uj_end j, uj_data j)) js =
+    [(3, 10, [([97%N], 1%N); ([98%N], 1%N); ([97%N], 2%N)]); (13, 20, [([99%N], 5%N)])] /\
+  timely ex_scfg (SStart 3 :: ex_sevs) (s_init ex_scfg) /\
+  cur [100%N] 0 s' = 7%N.
+Proof. cbn. repeat split; auto; try lia. Qed.
+
+(* NOT a violation (the property bounds the length from above), recorded: when the session stops in the
+   interval of its last reset, the Stop window ends BEFORE it starts *)
+Example stop_window_reversed :
+  let '(js, _) := s_run ex_scfg [SStart 3; SSample 0 [97%N] 1%N; SStop 7] (s_init ex_scfg) in
+  map (fun j => (uj_start j, uj_end j)) js = [(3, 0)].
+Proof. reflexivity. Qed.
